@@ -143,7 +143,12 @@ type written struct {
 
 func TestPropConverge(t *testing.T) {
 	rapid.Check(t, func(t *rapid.T) {
-		up := fix.New(t, fix.Opts{TCP: true, ID: cloudID})
+		// half of the cases: the upstream bus requires a token, configured in the sync node
+		upToken := ""
+		if rapid.Bool().Draw(t, "upstreamToken") {
+			upToken = "tok-" + rapid.StringMatching(`[a-z0-9]{4,10}`).Draw(t, "token")
+		}
+		up := fix.New(t, fix.Opts{TCP: true, ID: cloudID, AuthToken: upToken})
 		defer func() { up.Close() }()
 		down := fix.New(t, fix.Opts{TCP: true, ID: devID})
 		defer down.Close()
@@ -197,7 +202,7 @@ func TestPropConverge(t *testing.T) {
 			}
 		}()
 		ack(D, syncID, "", data.Points{{Type: data.PointTypeDescription, Text: "link", Time: ts(), Origin: "h"}, {Type: data.PointTypeURI, Text: up.URL, Time: ts(), Origin: "h"},
-			{Type: data.PointTypePeriod, Value: 1, Time: ts(), Origin: "h"}})
+			{Type: data.PointTypePeriod, Value: 1, Time: ts(), Origin: "h"}, {Type: data.PointTypeAuthToken, Text: upToken, Time: ts(), Origin: "h"}})
 		ack(D, syncID, devID, data.Points{{Type: data.PointTypeTombstone, Time: ts(), Origin: "h"}, {Type: data.PointTypeNodeType, Text: "sync", Origin: "h"}})
 		writes = nil // the sync node's own points are bookkeeping: compared between sides only
 		// wait for the initial catch-up: the device node appears upstream
@@ -352,7 +357,7 @@ func TestPropConverge(t *testing.T) {
 				up.NC.Close()
 				up.NS.Shutdown()
 				up.NS.WaitForShutdown()
-				nu, err := fix.Start(fix.Opts{TCP: true, Port: port, Dir: dir, ID: cloudID})
+				nu, err := fix.Start(fix.Opts{TCP: true, Port: port, Dir: dir, ID: cloudID, AuthToken: upToken})
 				if err != nil {
 					t.Fatalf("restart upstream: %v", err)
 				}
@@ -447,6 +452,9 @@ func TestPropConverge(t *testing.T) {
 			if !ok || held.TimeNs != w.p.TimeNs {
 				t.Fatalf("%s %s/%s: the newest acknowledged write (%s side) was %v, both sides now hold %v\nhistory: %v", w.target, parts[1], parts[2], w.side, w.p, held, hist)
 			}
+		}
+		if upToken != "" {
+			flags["upstreamRequiresToken"] = true
 		}
 		nt := flags["outageWritesBothSides"]
 		var cls []string
